@@ -51,8 +51,9 @@ def info_length(rng, dst_len: int, src_len: int) -> int:
 def good_frame(rng, ids: IdSource | None = None, dense: bool | None = None, max_info: int | None = None,
                want_info: bool | None = None) -> tuple[bytes, dict]:
     """A well-formed frame; returns (octets, description)."""
-    dl = rng.choice((1, 1, 1, 2, 2, 3, 4))
-    sl = rng.choice((1, 1, 1, 2, 2, 3, 4))
+    # (addresses are 'recursively extended': one, two and four octets are what DLMS uses, the format itself allows any length)
+    dl = rng.choice((1, 1, 1, 2, 2, 3, 4)) if rng.random() > 0.04 else rng.choice((5, 6, 8))
+    sl = rng.choice((1, 1, 1, 2, 2, 3, 4)) if rng.random() > 0.04 else rng.choice((5, 6, 8))
     dst = hdlc_ref.address(rng, dl)
     src = hdlc_ref.address(rng, sl)
     ctrl = rng.randrange(256)
@@ -105,6 +106,31 @@ def sibling(rng, desc: dict, ids: IdSource | None = None):
     return octets, d2
 
 
+def layout_mimic(rng, desc: dict, ids: IdSource | None = None):
+    """After a run of frames with one-octet addresses: a frame with the same destination and a four-octet source address whose octets
+    at the *old* header-check position are exactly the check sequence of the octets before them - it reads as a complete, correct
+    header under the layout of its predecessors although its own header is longer.  (octets, description) or None."""
+    from vf.ref import fcs16
+
+    if len(desc["dst"]) != 1 or len(desc["src"]) != 1:
+        return None
+    n_info = rng.randint(8, 40)
+    total = 2 + 1 + 4 + 1 + 2 + n_info + 2
+    fmt = ((desc["type"] & 0xF) << 12) | total
+    head = bytes((fmt >> 8, fmt & 0xFF)) + desc["dst"]
+    for _ in range(400):
+        s0, s1 = rng.randrange(128) << 1, rng.randrange(128) << 1
+        t = fcs16.trailer(head + bytes((s0, s1)))
+        if t[0] % 2 == 0 and t[1] % 2 == 1:
+            src = bytes((s0, s1, t[0], t[1]))
+            info = info_bytes(rng, n_info, False)
+            if ids is not None:
+                info = ids.next() + info[6:]
+            d2 = dict(desc, src=src, info=info, seg=False, ctrl=rng.randrange(256))
+            return hdlc_ref.build(d2["type"], False, d2["dst"], src, d2["ctrl"], info), d2
+    return None
+
+
 def digest_twin(rng, desc: dict):
     """Another well-formed frame with the same header, the same length and the same CRC-32 over all its octets (check sequences
     recomputed) - only information octets differ.  (octets, description) or None."""
@@ -139,8 +165,18 @@ def in_plain_domain(octets: bytes, abort: bool) -> bool:
 
 def corrupt(rng, octets: bytes) -> tuple[bytes, str]:
     """A damaged variant of a well-formed frame; returns (octets, class)."""
-    kind = rng.choice(("bitflip", "truncate", "truncate_after_hcs", "extra", "wrong_length", "swap_fcs", "header_only_cut", "invert_fcs", "invert_hcs_and_fcs", "fcs_plus_one", "tiny_length", "short_length_good_fcs_then_more"))
+    kind = rng.choice(("bitflip", "truncate", "truncate_after_hcs", "extra", "wrong_length", "swap_fcs", "header_only_cut", "invert_fcs", "invert_hcs_and_fcs", "fcs_plus_one", "tiny_length", "short_length_good_fcs_then_more", "wrong_hcs_fcs_recomputed"))
     b = bytearray(octets)
+    if kind == "wrong_hcs_fcs_recomputed":
+        # the header check sequence is wrong, the frame check sequence is right for the octets as they are: length and FCS are what
+        # validity is defined by
+        f = hdlc_ref.parse(octets)
+        if f is not None and f.info:
+            hl = 2 + len(f.destination) + len(f.source) + 1
+            b[hl + rng.randrange(2)] ^= 1 << rng.randrange(8)
+            body = bytes(b[:-2])
+            return body + fcs16_trailer(body), kind
+        kind = "bitflip"
     if kind == "short_length_good_fcs_then_more":
         # the length field announces fewer octets than the frame has, every check sequence is right for the octets that are there, and
         # more octets follow before the flag: the running FCS is 'good' at a place where the frame neither ends nor should end
@@ -221,7 +257,12 @@ def fcs16_trailer(octets: bytes) -> bytes:
 
 
 def noise(rng, n: int, flavour: str | None = None) -> tuple[bytes, str]:
-    flavour = flavour or rng.choice(("random", "dense", "lookalike", "abort", "flagfree", "esc_end", "idle_line", "length_sweep", "short_then_overlong"))
+    flavour = flavour or rng.choice(("random", "dense", "lookalike", "abort", "flagfree", "esc_end", "idle_line", "length_sweep", "short_then_overlong", "abort_after_header"))
+    if flavour == "abort_after_header":
+        # a frame that is aborted (7D 7E) after its complete, correct header - and possibly some of its information field
+        fr, _d = good_frame(rng, None, max_info=40, want_info=True)
+        h = header_octets(fr)
+        return bytes((FLAG,)) + h + fr[len(h) : len(h) + rng.choice((0, 0, 1, 5))] + bytes((ESC, FLAG)) + rng.choice((b"", bytes((FLAG,)))), flavour
     if flavour == "short_then_overlong":
         # a frame that a flag discards (too short / aborted) directly followed by one that grows beyond the maximum length
         first = rng.choice((b"\x7e\xa0\x7e", b"\x7e\xa0\x0a\x01\x7e", b"\x7e\xa0\x0a\x01\x02\x01\x7d\x7e", b"\x7e\x7e\xa0\x7e"))
@@ -268,16 +309,19 @@ def on_wire(octets: bytes, stuffing: bool) -> bytes:
 def special_frame(rng, ids: IdSource | None = None, kind: str | None = None) -> tuple[bytes, dict, str]:
     """Well-formed frames at the boundary values of the check sequences (zero / all ones / flag / escape octets) and of the
     running FCS register (0x0000 in the middle of the information field), and near-maximum frames dense in flag/escape octets."""
-    kind = kind or rng.choice(("hcs_zero", "fcs_zero", "fcs_ffff", "fcs_ends_7d", "fcs_has_7e", "reg_zero_mid", "reg_zero_mid", "near_max_dense", "header_only_fcs_zero", "fcs_equals_other_field", "fcs_equals_other_field"))
+    kind = kind or rng.choice(("hcs_zero", "hcs_flags", "fcs_zero", "fcs_ffff", "fcs_ends_7d", "fcs_has_7e", "reg_zero_mid", "reg_zero_mid", "near_max_dense", "header_only_fcs_zero", "fcs_equals_other_field", "fcs_equals_other_field", "info_repeats_own_header_after_a_flag"))
     ftype, seg = 0xA, False
-    if kind in ("hcs_zero", "header_only_fcs_zero"):
+    if kind in ("hcs_zero", "header_only_fcs_zero", "hcs_flags"):
         n_info = 0 if kind == "header_only_fcs_zero" else rng.randint(6, 40)
+        # register value that makes the transmitted header check sequence 00 00 - or 7E 7E / 7E 7D / 7D 7E (flag and escape octets)
+        hcs_pair = (0x00, 0x00) if kind != "hcs_flags" else rng.choice(((0x7E, 0x7E), (0x7E, 0x7D), (0x7D, 0x7E), (0x7E, 0x00), (0x00, 0x7E)))
+        hcs_target = (~((hcs_pair[1] << 8) | hcs_pair[0])) & 0xFFFF
         while True:
             dst = hdlc_ref.address(rng, rng.choice((1, 1, 2)))
             total = 2 + len(dst) + 1 + 1 + 2 + (n_info + 2 if n_info else 0)
             fmt = (ftype << 12) | total
             prefix = bytes((fmt >> 8, fmt & 0xFF)) + dst
-            pair = fcs16.force(fcs16.register(prefix), 0xFFFF)  # register 0xFFFF <=> transmitted check sequence 00 00
+            pair = fcs16.force(fcs16.register(prefix), hcs_target)  # register 0xFFFF <=> transmitted check sequence 00 00
             if pair[0] & 1:  # one-octet source address must have its low bit set
                 src, ctrl = pair[:1], pair[1]
                 break
@@ -285,7 +329,7 @@ def special_frame(rng, ids: IdSource | None = None, kind: str | None = None) -> 
         if ids is not None and n_info >= 6:
             info = ids.next() + info[6:]
         octets = hdlc_ref.build(ftype, seg, dst, src, ctrl, info)
-        assert octets[len(prefix) + 2 : len(prefix) + 4] == b"\x00\x00"
+        assert octets[len(prefix) + 2 : len(prefix) + 4] == bytes(hcs_pair)
         return octets, {"type": ftype, "seg": seg, "dst": dst, "src": src, "ctrl": ctrl, "info": info}, kind
     dst = hdlc_ref.address(rng, rng.choice((1, 1, 2, 4)))
     src = hdlc_ref.address(rng, rng.choice((1, 1, 2, 4)))
@@ -310,6 +354,13 @@ def special_frame(rng, ids: IdSource | None = None, kind: str | None = None) -> 
         for k in range(pos + 2, min(n, pos + 12)):
             if body[k] in (0x7E, 0x7D):
                 body[k] = 0x11
+    elif kind == "info_repeats_own_header_after_a_flag":
+        # self-similar content: the information field contains a flag octet directly followed by a copy of the frame's own header
+        # (format / length, addresses, control, header check sequence) - or of its first octets
+        copy = head[: rng.choice((len(head), len(head), len(head) - 2, 4))]
+        pos = rng.randrange(6, max(7, n - len(copy) - 3))
+        if pos + 1 + len(copy) <= n - 2:
+            body[pos : pos + 1 + len(copy)] = b"\x7e" + copy
     elif kind == "fcs_equals_other_field":
         # the frame check sequence coincides with another field of the same frame: the header check sequence, the format field,
         # the first two information octets, the two address octets next to the control field (either octet order)
